@@ -202,15 +202,18 @@ impl<'a> DocSymEmitter<'a> {
             }
             Token::Segment { id, block, .. } => {
                 if let Some(b) = block {
-                    if let Ok(Some(symbol_id)) = self
+                    // (the lock is released before going into the block, which may contain segment blocks of its own)
+                    let symbol_id = self
                         .codegen
                         .lock()
                         .unwrap()
-                        .evaluate_expression_as_string(id, false)
-                    {
-                        self.emit_document_symbols(&b.inner, Some(&Identifier::new(symbol_id)))
-                    } else {
-                        vec![]
+                        .evaluate_expression_as_string(id, false);
+                    match symbol_id {
+                        // (a name with a period in it is not a valid segment name, which has been reported already)
+                        Ok(Some(symbol_id)) if !symbol_id.contains('.') => {
+                            self.emit_document_symbols(&b.inner, Some(&Identifier::new(symbol_id)))
+                        }
+                        _ => vec![],
                     }
                 } else {
                     vec![]
